@@ -37,7 +37,7 @@ pub const SCHEMES: &[&str] = &["http", "https", "ws", "wss", "https", "wss", "ht
 pub const HOSTS: &[&str] = &[
     "example.com", "www.example.com", "a.b.example.com", "EXAMPLE.COM", "Www.Example.Com", "localhost", "other.test", "unrelated.invalid",
     "127.0.0.1", "10.0.0.1", "[::1]", "[0:0:0:0:0:0:0:1]", "[2001:db8::7]", "my_host.example.com", "exa$mple.com", "a..b", "-dash.example.com",
-    "example.com.", "1.2.3", "x",
+    "example.com.", "1.2.3", "x", "[fe80::1%25eth0]", "[1:2]", "[::ffff:127.0.0.1]",
 ];
 const PEERS: &[&str] = &["good", "good", "good", "good", "othername", "untrusted", "plain", "close0", "close1", "trunc", "alert", "silent"];
 const ALPN: &[&str] = &["-", "-", "h2", "h11", "both"];
@@ -122,7 +122,8 @@ pub fn server_config(which: &str, alpn: &str) -> rustls::ServerConfig {
 
 // ---- IO -----------------------------------------------------------------------------------
 #[pin_project::pin_project]
-struct TIo(#[pin] tokio::io::DuplexStream);
+pub struct TIo(#[pin] tokio::io::DuplexStream);
+impl TIo { pub fn new(io: tokio::io::DuplexStream) -> Self { TIo(io) } }
 impl HasConnectionInfo for TIo {
     type Addr = DuplexAddr;
     fn info(&self) -> ConnectionInfo<DuplexAddr> { ConnectionInfo { local_addr: DuplexAddr::new(), remote_addr: DuplexAddr::new() } }
@@ -138,7 +139,8 @@ impl AsyncWrite for TIo {
 
 /// peer side: records every raw byte read
 #[pin_project::pin_project]
-struct Tap { #[pin] io: tokio::io::DuplexStream, raw: Arc<Mutex<Vec<u8>>> }
+pub struct Tap { #[pin] io: tokio::io::DuplexStream, raw: Arc<Mutex<Vec<u8>>> }
+impl Tap { pub fn new(io: tokio::io::DuplexStream, raw: Arc<Mutex<Vec<u8>>>) -> Self { Tap { io, raw } } }
 impl AsyncRead for Tap {
     fn poll_read(self: Pin<&mut Self>, cx: &mut Context<'_>, buf: &mut ReadBuf<'_>) -> Poll<std::io::Result<()>> {
         let this = self.project();
@@ -326,3 +328,4 @@ pub fn run(toks: &[&str]) -> String {
         format!("{res} {wire} {} {sni} {alpn} {} {nv}", contains(&raw, MARKER) as u8, app as u8)
     })
 }
+impl hyperdriver::client::pool::PoolableStream for TIo { fn can_share(&self) -> bool { false } }
